@@ -14,7 +14,7 @@ import (
 func init() {
 	core.Register(&core.Prop{
 		ID: "C08",
-		Rule: "case = one generated definition (longlat, merc with lat_ts or k_0, lcc 2SP/1SP, aea, eqdc, tmerc, utm zones 1-60 N/S, krovak; every built-in ellipsoid name incl. sphere, a+b, a+rf; datum none/named/towgs84 3/7; units m/ft/us-ft/to_meter; prime meridian by name or value) with 4 positions in its usable region, round-tripped p -> xy -> p' -> xy' through fresh SR objects and a fresh transformer per call against (i) the geographic system on the same ellipsoid/datum (every position of the usable region) and (ii) WGS84 through the datum shift (positions inside the datum's area of use; whole globe for WGS84/NAD83 and small random towgs84); plus the forward/inverse closure pair of (*SR).Transformers() in radians; " +
+		Rule: "case = one generated definition (longlat, merc with lat_ts or k_0, lcc 2SP/1SP, aea, eqdc, tmerc, utm zones 1-60 N/S, krovak; every built-in ellipsoid name incl. sphere, a+b, a+rf; datum none/named/towgs84 3/7; units m/ft/us-ft/to_meter; prime meridian by name or value) with 4 positions in its usable region, round-tripped p -> xy -> p' -> xy' through fresh SR objects and a fresh transformer per call against (i) the geographic system on the same ellipsoid/datum (every position of the usable region) and (iii) a geographic system that names only an ellipsoid (no datum; small-shift definitions as in ii) and (ii) WGS84 through the datum shift (positions inside the datum's area of use; whole globe for WGS84/NAD83 and small random towgs84); plus the forward/inverse closure pair of (*SR).Transformers() in radians; " +
 			"violation = any error, |dlon| or |dlat| > 1e-6 deg (longitude modulo 360) or |xy'-xy| > 1 cm; an evaluation is one position round-tripped; non-trivial = definition with a datum shift, a non-metre unit, a prime meridian or a non-WGS84 ellipsoid; distinct by definition hash",
 		Assumptions: []string{"WGS84 partner only inside area-of-use boxes (a 2-D transform drops the ellipsoidal height a datum shift produces; outside the area of use a correct implementation loses up to 1 m per round trip, identically in proj4js)", "usable regions as stated by the property; longitudes kept inside (-180, 180) in every meridian frame"},
 		Phases: []core.Phase{{Name: "roundtrip", NumCases: func(t string) int {
@@ -25,7 +25,7 @@ func init() {
 		}}},
 		Run: run,
 		Floors: func(t string) map[string]int64 {
-			m := map[string]int64{"partner.same_datum": 10000, "partner.wgs84_area_of_use": 2000, "partner.wgs84_small_towgs84": 1000, "closure_pair": 5000, "ell.sphere": 100, "units.non_metre": 1000, "pm.set": 500}
+			m := map[string]int64{"partner.same_datum": 10000, "partner.wgs84_area_of_use": 2000, "partner.wgs84_small_towgs84": 1000, "partner.geographic_without_datum": 1000, "closure_pair": 5000, "ell.sphere": 100, "units.non_metre": 1000, "pm.set": 500}
 			for _, p := range []string{"longlat", "merc", "lcc", "aea", "eqdc", "tmerc", "utm", "krovak"} {
 				m["proj."+p] = 300
 			}
@@ -85,7 +85,7 @@ func lonDiff(a, b float64) float64 {
 
 func run(c *core.Ctx, idx int) {
 	r := c.R
-	mode := r.Intn(10) // 0-5 same datum, 6-7 WGS84 in area of use, 8-9 WGS84 with small random towgs84
+	mode := r.Intn(11) // 0-5 same datum, 6-7 WGS84 in area of use, 8-9 WGS84 with small random towgs84, 10 geographic partner without datum
 	var d *crsgen.Def
 	var geo string
 	var area *crsgen.DatumArea
@@ -133,6 +133,14 @@ func run(c *core.Ctx, idx int) {
 		}
 		geo = wgs84Geo
 		partner = "wgs84_small_towgs84"
+		if mode == 10 {
+			// the geographic side names only an ellipsoid (no datum): the port, like proj4js,
+			// then treats its coordinates as WGS84 for the shift to and from the other side,
+			// so both round trips must still close
+			geo = []string{"+proj=longlat +ellps=GRS80 +no_defs", "+proj=longlat +ellps=WGS84 +no_defs", "+proj=longlat +ellps=WGS84 +datum=none +no_defs",
+				"+proj=longlat +ellps=GRS80 +nadgrids=@null +no_defs", "+proj=longlat +a=6378137 +b=6356752.3 +no_defs"}[r.Intn(5)]
+			partner = "geographic_without_datum"
+		}
 	}
 	def := d.String()
 	c.Count("proj." + d.Proj)
@@ -163,7 +171,7 @@ func run(c *core.Ctx, idx int) {
 		}
 		// longitude in the partner's frame; keep all frames inside (-180, 180)
 		lg := lon
-		if geo == wgs84Geo {
+		if partner != "same_datum" { // every other partner counts its longitudes from Greenwich
 			lg = lon + d.PMDeg
 		}
 		if math.Abs(lon) > 179.5 || math.Abs(lg) > 179.5 || math.Abs(lon+d.PMDeg) > 179.5 {
